@@ -198,6 +198,7 @@ def oracle(run: runner.Run, oc: Outcome) -> None:
             seqs: dict[str, list[runner.Call]] = {}
             reason_now = None
             tainted = [False]
+            skip_until_close = [False]
 
             def _flush() -> None:
                 nonlocal exercised
@@ -219,7 +220,7 @@ def oracle(run: runner.Run, oc: Outcome) -> None:
                                    f"its final outcome {a.outcome!r} (#{a.n}) within one cycle", uid=uid)
                             break
                 seqs.clear()
-                tainted[0] = False
+                tainted[0] = skip_until_close[0]
 
             for s in lst:
                 if s.reason in ('create', 'update', 'delete') and s.reason != reason_now and seqs:
@@ -241,8 +242,16 @@ def oracle(run: runner.Run, oc: Outcome) -> None:
                     tainted[0] = True   # the record of this attempt never landed (the object vanished under the handler)
                 closed = any(w.after is None or st.last_handled(w.after) != st.last_handled(w.before) or
                              (s.reason == 'delete' and not st.has_finalizer(w.after)) for w in s.writes)
+                if s.reason == 'noop' and seqs:
+                    # the change under handling was reverted in the middle of its cycle (and may come back): the
+                    # records live on or are purged depending on what lands when; not judged until the next close
+                    skip_until_close[0] = True
+                if skip_until_close[0]:
+                    tainted[0] = True
                 if closed or s.reason in ('noop', 'gone', 'free'):
                     _flush()
+                if closed:
+                    skip_until_close[0] = False
             _flush()
         # 4. isolation: a write never changes what is not the writer's own
         for t in run.transitions:
